@@ -117,6 +117,49 @@ func obtain(m mux.Mux, id uint32, how string) (net.Conn, error) {
 	return m.Open(mux.ConnID(id))
 }
 
+// obtainRacing: how = "race" — several goroutines ask for the same id at the same moment (Open,
+// Dialer and Open again, as a server and a client side sharing one mux may). Whatever they are
+// handed must BE the connection for that id: the writers use the first handle, a reader sits on
+// every distinct handle. A handle that is not fed (an orphan created by a lost race) shows as a
+// reader that never sees the sentinel; a stream split over two objects as a wrong stream.
+func obtainRacing(m mux.Mux, id uint32) ([]net.Conn, error) {
+	const racers = 4
+	got := make([]net.Conn, racers)
+	errs := make([]error, racers)
+	start := make(chan struct{})
+	var wg sync.WaitGroup
+	for i := 0; i < racers; i++ {
+		wg.Add(1)
+		go func(i int) {
+			defer wg.Done()
+			<-start
+			if i%2 == 1 {
+				got[i], errs[i] = m.Dialer(mux.ConnID(id))("", "")
+			} else {
+				got[i], errs[i] = m.Open(mux.ConnID(id))
+			}
+		}(i)
+	}
+	close(start)
+	wg.Wait()
+	var distinct []net.Conn
+	for i := 0; i < racers; i++ {
+		if errs[i] != nil {
+			return nil, errs[i]
+		}
+		dup := false
+		for _, d := range distinct {
+			if d == got[i] {
+				dup = true
+			}
+		}
+		if !dup {
+			distinct = append(distinct, got[i])
+		}
+	}
+	return distinct, nil
+}
+
 func RunTraffic(in TrafficIn) TrafficObs {
 	obs := TrafficObs{ReadsA: map[string][]string{}, ReadsB: map[string][]string{}, Errs: []string{}}
 	ca, cb, err := Pair()
@@ -131,16 +174,28 @@ func RunTraffic(in TrafficIn) TrafficObs {
 		ms[e] = mux.Multiplex(taps[e], mux.WithReadQueueLength(in.Qlen), mux.WithBlockedRead())
 	}
 	conns := [2]map[uint32]net.Conn{{}, {}}
+	handles := [2]map[uint32][]net.Conn{{}, {}} // every distinct handle obtained for the id (readers)
 	var emu sync.Mutex
 	addErr := func(s string) { emu.Lock(); obs.Errs = append(obs.Errs, s); emu.Unlock() }
 	for e := 0; e < 2; e++ {
 		for i, id := range in.Ids {
+			if in.How[i] == "race" {
+				hs, err := obtainRacing(ms[e], id)
+				if err != nil {
+					obs.Crashed = "harness: open: " + err.Error()
+					return obs
+				}
+				conns[e][id] = hs[0]
+				handles[e][id] = hs
+				continue
+			}
 			c, err := obtain(ms[e], id, in.How[i])
 			if err != nil {
 				obs.Crashed = "harness: open: " + err.Error()
 				return obs
 			}
 			conns[e][id] = c
+			handles[e][id] = []net.Conn{c}
 		}
 	}
 	ms[0].Unblock()
@@ -158,31 +213,32 @@ func RunTraffic(in TrafficIn) TrafficObs {
 	var rwg, wwg [2]sync.WaitGroup
 	for e := 0; e < 2; e++ {
 		for _, id := range in.Ids {
-			rwg[e].Add(1)
-			go func(e int, id uint32) {
-				defer rwg[e].Done()
-				c := conns[e][id]
-				buf := make([]byte, in.Buf)
-				for {
-					n, err := c.Read(buf)
-					if err != nil {
-						addErr(fmt.Sprintf("read end=%d id=%d: %s", e, id, Classify(err)))
-						return
+			for _, hc := range handles[e][id] {
+				rwg[e].Add(1)
+				go func(e int, id uint32, c net.Conn) {
+					defer rwg[e].Done()
+					buf := make([]byte, in.Buf)
+					for {
+						n, err := c.Read(buf)
+						if err != nil {
+							addErr(fmt.Sprintf("read end=%d id=%d: %s", e, id, Classify(err)))
+							return
+						}
+						if n > len(buf) {
+							addErr(fmt.Sprintf("read end=%d id=%d: n=%d > len(buf)", e, id, n))
+							return
+						}
+						fr := append([]byte(nil), buf[:n]...)
+						rmu.Lock()
+						reads[e][id] = append(reads[e][id], fr)
+						rmu.Unlock()
+						credits[1-e][id].release()
+						if isSentinel(fr) {
+							return
+						}
 					}
-					if n > len(buf) {
-						addErr(fmt.Sprintf("read end=%d id=%d: n=%d > len(buf)", e, id, n))
-						return
-					}
-					fr := append([]byte(nil), buf[:n]...)
-					rmu.Lock()
-					reads[e][id] = append(reads[e][id], fr)
-					rmu.Unlock()
-					credits[1-e][id].release()
-					if isSentinel(fr) {
-						return
-					}
-				}
-			}(e, id)
+				}(e, id, hc)
+			}
 		}
 	}
 	progs := [2][][]WriteSpec{in.A, in.B}
@@ -341,7 +397,7 @@ func RandomTraffic(r *rand.Rand, mp int, i int) Job {
 	in := TrafficIn{Kind: "traffic", Note: "random", Mp: mp, Qlen: qlen, WaitMs: 15000}
 	for c := 0; c < nids; c++ {
 		in.Ids = append(in.Ids, uint32(1+c+r.Intn(2)*1000*c))
-		in.How = append(in.How, []string{"open", "dial", "listen"}[r.Intn(3)])
+		in.How = append(in.How, []string{"open", "dial", "listen", "race"}[r.Intn(4)])
 	}
 	maxLen := 0
 	seq := 0
